@@ -57,12 +57,13 @@ func (f *Footprint) write(o *Object, g *Term) {
 // ---------------- trace records ----------------
 
 type FireRec struct {
-	Step int
-	Gor  string
-	Idx  int
-	Pos  string
-	Op   string
-	Fire *Term
+	Phase int
+	Step  int
+	Gor   string
+	Idx   int
+	Pos   string
+	Op    string
+	Fire  *Term
 }
 
 type SchedInfo struct {
@@ -402,7 +403,7 @@ func (e *Engine) runHarness(h *ssa.Function) *SchedInfo {
 				foot.read(o, cd.fire)
 			}
 			foot.read(e.gorObj(cd.g), cd.fire)
-			si.Fires = append(si.Fires, FireRec{Step: t, Gor: cd.g.name, Idx: cd.g.idx, Pos: e.posOf(cd.c), Op: e.opName(cd.c), Fire: cd.fire})
+			si.Fires = append(si.Fires, FireRec{Step: t, Gor: cd.g.name, Idx: cd.g.idx, Pos: e.posOf(cd.c), Op: e.opName(cd.c), Fire: cd.fire, Phase: cd.c.phase})
 			fc := cd.c.clone()
 			fc.g = cd.fire
 			fc.fuel = true
@@ -515,6 +516,26 @@ func (e *Engine) porConstraints(si *SchedInfo) {
 		dep := Or(deps...)
 		e.constraints = append(e.constraints, Implies(And(Ult(si.S[t+1], si.S[t]), si.Progress[t+1]), dep))
 	}
+}
+
+type SchedEntry struct {
+	Pos   string `json:"pos"`
+	Phase int    `json:"phase"`
+	Gor   int    `json:"gor"`
+	Auto  bool   `json:"auto"`
+}
+
+// scheduleEntries lists the fired transitions under a model for the native replay controller.
+func (e *Engine) scheduleEntries(si *SchedInfo, model map[string]uint64) []SchedEntry {
+	memo := map[int]uint64{}
+	var out []SchedEntry
+	for _, fr := range si.Fires {
+		if Eval(fr.Fire, model, memo) != 0 {
+			auto := fr.Phase > 0 || strings.Contains(fr.Pos, "zz_verif_ab_rt_common.go") || !strings.Contains(fr.Pos, ".go:")
+			out = append(out, SchedEntry{Pos: fr.Pos, Phase: fr.Phase, Gor: fr.Idx, Auto: auto})
+		}
+	}
+	return out
 }
 
 // describeSchedule renders the fired transitions under a model.
